@@ -22,20 +22,16 @@ def handled_sets(prog):
     m = prog.module(SRC)
     he = m.func("_handle_expr")
     exprs = sequential_chain(strip_docstring(he.body), he.args.args[0].arg).kinds
+    from ..dispatch import operator_table
+    from .c06 import compare_links
+
     ops: dict[str, set[str]] = {}
     for name in ("_handle_binop", "_handle_unaryop"):
-        f = m.func(name)
-        for n in walk_no_nested(f):
-            if isinstance(n, ast.Match):
-                ops[name] = match_dispatch(n).kinds
-    cmp_ = set()
-    for n in walk_no_nested(he):
-        if isinstance(n, ast.If):
-            r = isinstance_kinds(n.test)
-            if r and r[1] <= {"Gt", "GtE", "Lt", "LtE", "Eq", "NotEq"}:
-                d = if_chain(n)
-                cmp_ = d.kinds
-                break
+        ot = operator_table(m, m.func(name))
+        if ot is not None:
+            ops[name] = set(ot[0])
+    cl = compare_links(m, he)
+    cmp_ = set(cl[0]) if cl and cl[0] else set()
     stmts = set()
     for name, f in m.functions.items():
         for n in walk_no_nested(f):
